@@ -122,7 +122,7 @@ def rule_whole(ctx, rep):
                     rep.bad("R-WHOLE", ik, "%s has no Deref target, yet its %s impl applies `%s::%s` to %s instead of to another handle" % (hn, tr0.split("::")[-1], l["trait"].split("::")[-1], l["method"], got), l["loc"], tag)
                 else:
                     rep.bad("R-WHOLE", ik, "%s's %s impl applies `%s::%s` to %s, which is not the whole value the handle holds (%s): part of the value would be ignored" % (hn, tr0.split("::")[-1], l["trait"].split("::")[-1], l["method"], got, expect), l["loc"], tag)
-    rep.floor("R-WHOLE", 17, "delegate calls inside handle impls (20 in the default configuration)")
+    rep.floor("R-WHOLE", 10, "delegate calls inside handle impls (20 in the default configuration)")
 
 
 class Leaves:
@@ -339,16 +339,29 @@ def _path_without_delegate(F, L, b, tr):
     return None
 
 
-def _ref_rule(F, b, rep, tag):
-    """Borrow / AsRef: the returned reference is the Deref of the handle (points at the payload)."""
+def _returns_deref(F, b, depth):
+    """The body returns the handle's own `Deref::deref` of its argument, directly or through a private accessor that does."""
+    if depth > 3:
+        return False
     B = cfg.Body(b)
     o = B.origin_local(0)
-    ok = False
-    if o.get("kind") == "call":
-        t = o["term"]
-        r = t.get("resolved")
-        if t.get("callee_trait") == "core::ops::deref::Deref" and isinstance(r, dict) and r["def"] in F.bodies:
-            ok = True
+    if o.get("kind") != "call":
+        return False
+    t = o["term"]
+    r = t.get("resolved")
+    if not (isinstance(r, dict) and r["def"] in F.bodies):
+        return False
+    a0 = operand_place(t["args"][0]) if t["args"] else None
+    if a0 is None or 1 not in _roots(B, a0["l"], set()):
+        return False
+    if t.get("callee_trait") == "core::ops::deref::Deref":
+        return True
+    return _returns_deref(F, F.body(r["def"]), depth + 1)
+
+
+def _ref_rule(F, b, rep, tag):
+    """Borrow / AsRef: the returned reference is the Deref of the handle (points at the payload)."""
+    ok = _returns_deref(F, b, 0)
     if ok:
         rep.ok("R-DELEG", b["key"], cfg=tag)
     else:
